@@ -528,3 +528,112 @@ func init() {
 	intrinsics["crypto/sha1.Sum"] = intrSumFn("sha1", 20)
 	intrinsics["golang.org/x/crypto/pbkdf2.Key"] = intrPBKDF2
 }
+
+// bytes.Repeat(b, n): panics for negative n; for a one-byte pattern the result is n copies of it.
+func intrBytesRepeat(e *Exec, st *State, fr *Frame, args []Val, in ssa.Instruction, rt types.Type) []callRes {
+	s, ok := args[0].(*SliceVal)
+	n, ok2 := args[1].(*Term)
+	if !ok || !ok2 {
+		return nil
+	}
+	c := e.C
+	e.oblige(st, fr, in, "panic", c.Le(zeroOf(c, n.S), n, true))
+	if st.Dead {
+		return []callRes{}
+	}
+	if pat, ok := e.bytesOf(st, s); ok && n.IsConst() && n.C.IsInt64() && n.C.Int64()*int64(len(pat)) <= 4096 {
+		var vals []*Term
+		for i := int64(0); i < n.C.Int64(); i++ {
+			vals = append(vals, pat...)
+		}
+		return []callRes{{st, e.byteSliceOf(st, vals, "repeat")}}
+	}
+	out := e.freshSliceObj(st, types.Typ[types.Uint8], "repeat")
+	e.metaAll[out.Obj].Growable = false
+	st.assume(c.Eq(out.Len, c.Mul(s.Len, n)))
+	st.assume(c.Eq(out.Cap, out.Len))
+	st.assume(c.Not(out.Nil))
+	if s.Obj != 0 && s.Len.IsConst() && s.Len.C.IsInt64() && s.Len.C.Int64() == 1 {
+		sav := e.sliceBacking(st, s)
+		b := e.sel(sav.C, s.Off)
+		av := e.sliceBacking(st, out)
+		nav := *av
+		nav.C = &ArrFill{Val: b}
+		st.Heap[out.Obj] = &nav
+	}
+	return []callRes{{st, out}}
+}
+
+func init() {
+	intrinsics["bytes.Repeat"] = intrBytesRepeat
+}
+
+// ---- the library's own MD4 as a function (clause `model md4` of a lemma) ----
+//
+// Lemmas about what the library feeds into MD4 (NT hash, MS-Cache, NTLMv2 keying) treat crypto/md4 modularly: New /
+// Write / Sum and the one-shot Sum are replaced by the deterministic function "md4" of the bytes written, so that
+// the lemma is about the message and holds for whatever function crypto/md4 computes; that this function is RFC 1320
+// is the subject of the lemmas in crypto/md4 itself.
+
+const md4Pkg = modulePath + "/crypto/md4"
+
+var md4Model = map[string]intrinsic{
+	md4Pkg + ".New": func(e *Exec, st *State, fr *Frame, args []Val, in ssa.Instruction, rt types.Type) []callRes {
+		if e.IntMode {
+			return nil
+		}
+		iv := e.newCryptoObj(st, &cryptoObj{kind: "hash", alg: "md4", size: 16}, nil)
+		p := iv.V.(*PtrVal)
+		if pt, ok := rt.(*types.Pointer); ok {
+			return []callRes{{st, &PtrVal{Obj: p.Obj, T: pt.Elem()}}}
+		}
+		return nil
+	},
+	"(*" + md4Pkg + ".MD4).Write": func(e *Exec, st *State, fr *Frame, args []Val, in ssa.Instruction, rt types.Type) []callRes {
+		p, ok := args[0].(*PtrVal)
+		if !ok || e.cryptoObjs[p.Obj] == nil {
+			return nil
+		}
+		n := lenOfVal(e, args[1])
+		if st2, ok := e.bufferAppend(st, fr, in, &PtrVal{Obj: p.Obj, T: cryptoStructT}, args[1]); ok {
+			return []callRes{{st2, TupleVal{n, errNil(e)}}}
+		}
+		e.poisonCrypto(st, &PtrVal{Obj: p.Obj, T: cryptoStructT})
+		return []callRes{{st, TupleVal{n, errNil(e)}}}
+	},
+	"(*" + md4Pkg + ".MD4).Sum": func(e *Exec, st *State, fr *Frame, args []Val, in ssa.Instruction, rt types.Type) []callRes {
+		p, ok := args[0].(*PtrVal)
+		if !ok || e.cryptoObjs[p.Obj] == nil {
+			return nil
+		}
+		var dig []*Term
+		if sv, _ := e.load(st, &PtrVal{Obj: p.Obj, T: cryptoStructT}).(*StructVal); sv != nil {
+			if off, isT := sv.Fields[1].(*Term); isT && off.IsConst() && off.C.Sign() == 0 {
+				if msg, ok := e.bytesOf(st, sv.Fields[0]); ok {
+					dig = e.ufBytes("md4", 16, nil, nil, msg)
+				}
+			}
+		}
+		if dig == nil {
+			dig = make([]*Term, 16)
+			for i := range dig {
+				dig[i] = e.C.Fresh("digest", BV(8))
+			}
+		}
+		es := e.elemSort(types.Typ[types.Uint8])
+		return []callRes{{st, &ArrayVal{ElemT: types.Typ[types.Uint8], Scalar: true, Elem: es, C: &ArrLit{Vals: dig, Rest: &ArrFill{Val: e.C.NumConst(big.NewInt(0), es)}}, Len: e.idx(16)}}}
+	},
+	md4Pkg + ".Sum": func(e *Exec, st *State, fr *Frame, args []Val, in ssa.Instruction, rt types.Type) []callRes {
+		if e.IntMode {
+			return nil
+		}
+		msg, ok := e.bytesOf(st, args[0])
+		if !ok {
+			return nil
+		}
+		e.UsedIntrinsics["deterministic-function model of md4 (uninterpreted; equal inputs give equal outputs)"] = true
+		dig := e.ufBytes("md4", 16, nil, nil, msg)
+		es := e.elemSort(types.Typ[types.Uint8])
+		return []callRes{{st, &ArrayVal{ElemT: types.Typ[types.Uint8], Scalar: true, Elem: es, C: &ArrLit{Vals: dig, Rest: &ArrFill{Val: e.C.NumConst(big.NewInt(0), es)}}, Len: e.idx(16)}}}
+	},
+}
